@@ -7,6 +7,33 @@ import sys
 import time
 
 
+class CallTimeout(Exception):
+    pass
+
+
+class time_limit:
+    """in-process limit for one call into the implementation (pure Python loops are interruptible by a signal):
+        with time_limit(20): f(x)      raises CallTimeout in the main thread after 20 s"""
+
+    def __init__(self, seconds):
+        self.seconds = seconds
+
+    def _raise(self, signum, frame):
+        raise CallTimeout('call did not return within %g s' % self.seconds)
+
+    def __enter__(self):
+        import signal
+        self.old = signal.signal(signal.SIGALRM, self._raise)
+        signal.setitimer(signal.ITIMER_REAL, self.seconds)
+        return self
+
+    def __exit__(self, *exc):
+        import signal
+        signal.setitimer(signal.ITIMER_REAL, 0)
+        signal.signal(signal.SIGALRM, self.old)
+        return False
+
+
 class Watchdog:
     def __init__(self, limit_s=20.0):
         self.limit = limit_s
